@@ -134,6 +134,7 @@ func buildWorld() *world {
 	st.SetState(aStorer, slotIDs[1], []byte{5})
 	deploy(aSuicider, codeSuicider, 3)
 	st.AddTokenBalance(aSuicider, aSmall01, bi(2))
+	st.SetTokenBalance(aSuicider, aTkn, bi(0)) // a token it once held and spent completely: a zero entry in committed state
 	deploy(aIssueLib, codeIssueLib, 0)
 	deploy(aIssuer, codeIssuer, 0)
 	deploy(aSpinner, codeSpinner, 0)
@@ -219,11 +220,7 @@ func takeDelta(st, ref *state.StateDB) *delta {
 				add(o.Addr, "code", "", hx(o.CodeHash[:3]))
 			}
 			if at := dumpTokens(o.Tokens); at != "" {
-				f := "token-balance"
-				if stripZero(at) == "" {
-					f = "token-zero-entry"
-				}
-				add(o.Addr, f, "{}", "{"+at+"}")
+				add(o.Addr, tokenClass("", at), "{}", "{"+at+"}")
 			}
 			for k, v := range o.Dirty {
 				if len(bytes.TrimLeft(v, "\x00")) > 0 {
@@ -251,11 +248,7 @@ func takeDelta(st, ref *state.StateDB) *delta {
 			add(o.Addr, "suicided", "false", "true")
 		}
 		if bt, at := dumpTokens(r.Tokens), dumpTokens(o.Tokens); bt != at {
-			f := "token-balance"
-			if stripZero(bt) == stripZero(at) {
-				f = "token-zero-entry"
-			}
-			add(o.Addr, f, "{"+bt+"}", "{"+at+"}")
+			add(o.Addr, tokenClass(bt, at), "{"+bt+"}", "{"+at+"}")
 		}
 		for k, v := range o.Dirty {
 			if b := ref.GetState(o.Addr, k); trimZ(b) != trimZ(v) {
@@ -289,6 +282,46 @@ func dumpTokens(m map[common.Address]*big.Int) string {
 	}
 	sort.Strings(ks)
 	return strings.Join(ks, ",")
+}
+
+// tokenClass names how two raw token maps (before, after) differ: in real balances, or only in zero entries
+// that appeared ("left") or disappeared ("lost").
+func tokenClass(before, after string) string {
+	if stripZero(before) != stripZero(after) {
+		return "token-balance"
+	}
+	zb, za := zeroEntries(before), zeroEntries(after)
+	left, lost := false, false
+	for k := range za {
+		if !zb[k] {
+			left = true
+		}
+	}
+	for k := range zb {
+		if !za[k] {
+			lost = true
+		}
+	}
+	switch {
+	case left && lost:
+		return "token-zero-entry-left+lost"
+	case lost:
+		return "token-zero-entry-lost"
+	}
+	return "token-zero-entry-left"
+}
+
+func zeroEntries(s string) map[string]bool {
+	m := map[string]bool{}
+	if s == "" {
+		return m
+	}
+	for _, e := range strings.Split(s, ",") {
+		if strings.HasSuffix(e, "=0") {
+			m[e] = true
+		}
+	}
+	return m
 }
 
 func stripZero(s string) string {
@@ -339,28 +372,71 @@ func fieldOf(line string) string {
 	return f
 }
 
+// parse splits a delta line "addr/field: before -> after".
+func parseLine(l string) (key, field, before, after string) {
+	i := strings.Index(l, ": ")
+	key = l[:i]
+	rest := l[i+2:]
+	j := strings.Index(rest, " -> ")
+	before, after = rest[:j], rest[j+4:]
+	field = fieldOf(l)
+	if strings.HasPrefix(field, "token-") {
+		// one group: the raw token map of the account
+		key = key[:strings.Index(key, "/")] + "/tokens"
+	}
+	return
+}
+
 // diff returns the sorted field classes in which two deltas (taken against the same ref) differ.
 func (d *delta) diff(o *delta) (classes []string, detail string) {
 	set := map[string]bool{}
 	var det []string
-	in := func(l []string) map[string]bool {
-		m := make(map[string]bool, len(l))
+	type ent struct{ field, before, after, line string }
+	index := func(l []string) map[string]ent {
+		m := make(map[string]ent, len(l))
 		for _, x := range l {
-			m[x] = true
+			k, f, b, a := parseLine(x)
+			m[k] = ent{f, b, a, x}
 		}
 		return m
 	}
-	dm, om := in(d.lines), in(o.lines)
-	for _, l := range d.lines {
-		if !om[l] {
-			set[fieldOf(l)] = true
-			det = append(det, "only first: "+l)
-		}
+	dm, om := index(d.lines), index(o.lines)
+	keys := map[string]bool{}
+	for k := range dm {
+		keys[k] = true
 	}
-	for _, l := range o.lines {
-		if !dm[l] {
-			set[fieldOf(l)] = true
-			det = append(det, "only second: "+l)
+	for k := range om {
+		keys[k] = true
+	}
+	for k := range keys {
+		x, inD := dm[k]
+		y, inO := om[k]
+		if inD && inO && x.after == y.after {
+			continue
+		}
+		cls := x.field
+		if !inD {
+			cls = y.field
+		}
+		if strings.HasSuffix(k, "/tokens") {
+			// the raw token maps differ: only by zero entries?
+			xa, ya := x.after, y.after
+			if !inD {
+				xa = y.before
+			}
+			if !inO {
+				ya = x.before
+			}
+			cls = tokenClass(strings.Trim(xa, "{}"), strings.Trim(ya, "{}"))
+		}
+		set[cls] = true
+		switch {
+		case inD && inO:
+			det = append(det, fmt.Sprintf("%s: first %s, second %s (pre-state %s)", k, x.after, y.after, x.before))
+		case inD:
+			det = append(det, "only first: "+x.line)
+		default:
+			det = append(det, "only second: "+y.line)
 		}
 	}
 	if d.logs != o.logs {
@@ -375,6 +451,7 @@ func (d *delta) diff(o *delta) (classes []string, detail string) {
 		classes = append(classes, c)
 	}
 	sort.Strings(classes)
+	sort.Strings(det)
 	if len(det) > 6 {
 		det = det[:6]
 	}
